@@ -2608,6 +2608,10 @@ def c36(ctx):
         return "".join("".join("1" if pat[s_][f] else "0" for s_ in sorted(pat)) for f in ("bitcoin_data_dir", "bitcoin_rpc_limit", "bitcoin_rpc_password"))
 
     or_pats = [("u%d%d" % b, uniform(b + (0,))) for b in _it.product((0, 1), repeat=2)] + [("m%d" % k, mixed(k)) for k in (1, 2, 5, 6)]
+    if ctx.tier == "thorough":
+        rnd_or = random.Random(C.seed() + 136)
+        for k in range(24):
+            or_pats.append(("r%d" % k, {s_: {f: rnd_or.random() < 0.5 for f in S_FIELDS} for s_ in ("A", "B", "C")}))
     for nm, pat in or_pats:
         pat = {s_: pat[s_] for s_ in ("A", "B")}
         guarded(ctx, "c36_or_%s" % nm,
@@ -2961,7 +2965,7 @@ def c36(ctx):
                    ("n5", without(uniform((1, 1, 1)), {"config": (0, 0)}))]
     if ctx.tier == "thorough":
         rnd = random.Random(C.seed() + 36)
-        for k in range(40):
+        for k in range(300):
             merge_pats.append(("r%d" % k, {s_: {f: rnd.random() < 0.5 for f in S_FIELDS} for s_ in ("A", "B", "C")}))
     for nm, pat in merge_pats:
         guarded(ctx, "c36_merge_%s" % nm,
